@@ -56,18 +56,39 @@ pub fn c15_hwb_to_rgb_f32_saturated_every_hue() {
     assert!(mx == 1.0 && mn == 0.0, "HWB -> RGB: a pure hue did not keep its largest / smallest component");
 }
 
-/// HSV -> RGB, every hue, saturation and value in [0,1]: the result is in [0,1]^3 and its largest component is the value
-/// to within 2 ulp of 1 (value = chroma + (value - chroma) carries one rounding)
+// Attempted and not decided: all three of hue, saturation and value symbolic at once (two symbolic f32 multiplications on top of
+// the hue normalisation) did not finish in 50 minutes; the two harnesses below make one of saturation / value symbolic each.
+
+/// HSV -> RGB, every hue, full value and every saturation in [0,1]: in [0,1]^3, largest component exactly the value (1),
+/// smallest 1 - saturation to within 1 ulp of 1
 /// @fn <Rgb<S,f32> as FromColorUnclamped<Hsv<S,f32>>>::from_color_unclamped
-/// @bound all f32 hues with |h| <= 1e6, all f32 S, V in [0,1]
+/// @bound all f32 hues with |h| <= 1e6, all f32 S in [0,1]; V = 1
 /// @thorough
 #[kani::proof]
-pub fn c15_hsv_to_rgb_f32_in_gamut_every_hue() {
-    let (h, s, v): (f32, f32, f32) = (kani::any(), kani::any(), kani::any());
-    kani::assume(hue_ok(h) && s >= 0.0 && s <= 1.0 && v >= 0.0 && v <= 1.0);
+pub fn c15_hsv_to_rgb_f32_full_value_every_hue_and_saturation() {
+    let (h, s): (f32, f32) = (kani::any(), kani::any());
+    kani::assume(hue_ok(h) && s >= 0.0 && s <= 1.0);
     kani::cover!(true);
-    let c = SrgbColor::<f32>::from_color_unclamped(Hsv::<Srgb, f32>::new(h, s, v));
+    let c = SrgbColor::<f32>::from_color_unclamped(Hsv::<Srgb, f32>::new(h, s, 1.0));
     let (mx, mn) = (c.red.max(c.green).max(c.blue), c.red.min(c.green).min(c.blue));
-    assert!(mn >= -2.4e-7 && mx <= 1.0 + 2.4e-7, "HSV -> RGB left [0,1]");
-    assert!((mx - v).abs() <= 2.4e-7, "HSV -> RGB: largest component is not the value");
+    assert!(mn >= 0.0 && mx <= 1.0, "HSV -> RGB left [0,1]");
+    assert!(mx == 1.0, "HSV -> RGB: largest component is not the value");
+    assert!((mn - (1.0 - s)).abs() <= 1.2e-7, "HSV -> RGB: smallest component is not value * (1 - saturation)");
+}
+
+/// HSV -> RGB, every hue, full saturation and every value in [0,1]: in [0,1]^3, largest component exactly the value,
+/// smallest exactly 0
+/// @fn <Rgb<S,f32> as FromColorUnclamped<Hsv<S,f32>>>::from_color_unclamped
+/// @bound all f32 hues with |h| <= 1e6, all f32 V in [0,1]; S = 1
+/// @thorough
+#[kani::proof]
+pub fn c15_hsv_to_rgb_f32_full_saturation_every_hue_and_value() {
+    let (h, v): (f32, f32) = (kani::any(), kani::any());
+    kani::assume(hue_ok(h) && v >= 0.0 && v <= 1.0);
+    kani::cover!(true);
+    let c = SrgbColor::<f32>::from_color_unclamped(Hsv::<Srgb, f32>::new(h, 1.0, v));
+    let (mx, mn) = (c.red.max(c.green).max(c.blue), c.red.min(c.green).min(c.blue));
+    assert!(mn >= 0.0 && mx <= 1.0, "HSV -> RGB left [0,1]");
+    assert!(mx == v, "HSV -> RGB: largest component is not the value");
+    assert!(mn == 0.0, "HSV -> RGB: smallest component is not 0 at full saturation");
 }
